@@ -1,8 +1,32 @@
-// Package c06: stub (property not built yet).
+// Package c06: live index and corpus equal what a restart would load (pkg/index index.go, corpus.go,
+// receive.go). The world builder, the interpreter and the schedules are those of c05; here every
+// arrival is followed by the exported query surface of the live index+corpus (`obs`) and of a fresh
+// index.New + KeepInMemory over the same sorted.KeyValue (`obsr`), which the oracle requires to agree.
 package c06
 
-import "verifharness/hk"
+import (
+	"verifharness/hk"
+	"verifharness/props/c05"
+)
 
-func NewExec() func(w []string) string { return func([]string) string { return "bad-op" } }
+func NewExec() func([]string) string { return c05.NewExec() }
 
-func Run(r *hk.Run) { r.Note("not built yet") }
+func Run(r *hk.Run) {
+	r.Res.Rule = "distinct (blob set, final row dump) pairs; after every arrival of every schedule the live answers are compared with a reload"
+	maxPerm, extra, nRandom := 4, 2, 6
+	if r.Thorough() {
+		maxPerm, extra, nRandom = 5, 4, 36
+	}
+	sets := c05.FixedSets(r.R)
+	for i := 0; i < nRandom; i++ {
+		sets = append(sets, c05.RandomSet(r.R, 3+r.R.Intn(5), i))
+	}
+	for i, s := range sets {
+		c05.Explore(r, s, true, maxPerm, extra)
+		if i < 3 {
+			r.Sample(map[string]any{"set": s.Name, "delivered": s.Deliver, "blobs": len(s.Specs)})
+		}
+	}
+	c05.MalformedObs(r)
+	c05.ProbesFor(r, "F-C06")
+}
